@@ -1,0 +1,68 @@
+//go:build verif
+
+package mutex
+
+// Machine-checked contracts for /verif (gowp). Comment-only file: it adds no code.
+
+// the table only grows and a name's mutex never changes (compared with the state at acquisition)
+//@ type SharedMutex
+//@   field mutexes guarded_by mutexesMU
+//@   monitor mutexesMU invariant ref(self.mutexes) == old(ref(self.mutexes)) && foralls(k, old(has(self.mutexes, k)) ==> has(self.mutexes, k) && self.mutexes[k] == old(self.mutexes[k]))
+//@   monitor mutexesMU invariant foralls(k, has(self.mutexes, k) ==> self.mutexes[k] != nil)
+//@ type unlockHandler
+//@   field list immutable
+//@   field sharedMutex immutable
+
+// One RW mutex per name, created on demand; a name's mutex never changes; the table lock is
+// released before returning on every path and never upgraded while held.
+//@ func (*SharedMutex).get [C15]
+//@   requires sharedMutex.mutexes != nil
+//@   requires foralls(k, has(sharedMutex.mutexes, k) ==> sharedMutex.mutexes[k] != nil)
+//@   modifies M:string:*sync.RWMutex, $maplen
+//@   ensures foralls(k, has(sharedMutex.mutexes, k) ==> sharedMutex.mutexes[k] != nil)
+//@   ensures mu != nil
+//@   ensures has(sharedMutex.mutexes, name) && sharedMutex.mutexes[name] == mu
+//@   ensures old(has(sharedMutex.mutexes, name)) ==> mu == old(sharedMutex.mutexes[name])
+//@   ensures !old(has(sharedMutex.mutexes, name)) ==> fresh(mu)
+//@   ensures forall(r, r != ref(sharedMutex.mutexes) ==> mapAt(sharedMutex.mutexes, r, 0) == old(mapAt(sharedMutex.mutexes, r, 0)) && mapAt(sharedMutex.mutexes, r, 1) == old(mapAt(sharedMutex.mutexes, r, 1)))
+//@   ensures foralls(k, k != name ==> has(sharedMutex.mutexes, k) == old(has(sharedMutex.mutexes, k)) && sharedMutex.mutexes[k] == old(sharedMutex.mutexes[k]))
+
+// comparator of the acquisition order: strictly by resource name
+//@ func (*SharedMutex).Lock$1 [C15]
+//@   layers contract
+//@   ensures result == (list[i].Name < list[j].Name)
+
+// Lock: copy the map into rows (each entry once), sort by name, acquire in that order, each
+// name's mutex once, read-locked iff the entry says LockR.
+//@ func (*SharedMutex).Lock [C15]
+//@   layers contract safety
+//@   requires sharedMutex.mutexes != nil
+//@   requires foralls(k, has(sharedMutex.mutexes, k) ==> sharedMutex.mutexes[k] != nil)
+//@   loop 1 invariant i == itercount() && len(list) == len(resources) && 0 <= i
+//@   loop 1 invariant sharedMutex.mutexes != nil && foralls(k, has(sharedMutex.mutexes, k) ==> sharedMutex.mutexes[k] != nil)
+//@   loop 1 invariant forall(k, 0 <= k && k < i ==> has(resources, list[k].Name) && visited(list[k].Name) && list[k].Value == resources[list[k].Name])
+//@   loop 1 invariant forall(a, forall(b, 0 <= a && a < b && b < i ==> list[a].Name != list[b].Name))
+// -- acquisition order: names strictly ascending
+//@   loop 2 invariant -1 <= $i && $i < len(list)
+//@   loop 2 invariant sharedMutex.mutexes != nil && foralls(k, has(sharedMutex.mutexes, k) ==> sharedMutex.mutexes[k] != nil)
+//@   loop 2 invariant forall(a, forall(b, 0 <= a && a < b && b < len(list) ==> list[a].Name < list[b].Name))
+//@   loop 2 invariant forall(k, 0 <= k && k < len(list) ==> has(resources, list[k].Name) && list[k].Value == resources[list[k].Name])
+//@   loop 2 step $i == prev($i) + 1 && row.Name == list[$i].Name && row.Value == list[$i].Value
+//@   trace get as GET bind got
+//@   at_call get requires $1 == row.Name
+//@   at_call (*RWMutex).RLock requires row.Value == commservices.LockR && $0 == got
+//@   at_call (*RWMutex).Lock requires row.Value != commservices.LockR && $0 == got
+//@   ensures typeis(handler, "*unlockHandler") && as(handler, "*unlockHandler").sharedMutex == sharedMutex
+
+// Unlock releases exactly the recorded (name, mode) pairs on the mutexes get() returns for them.
+//@ func (*unlockHandler).Unlock [C15]
+//@   layers contract safety
+//@   requires hander.sharedMutex != nil && hander.sharedMutex.mutexes != nil
+//@   requires foralls(k, has(hander.sharedMutex.mutexes, k) ==> hander.sharedMutex.mutexes[k] != nil)
+//@   loop 1 invariant -1 <= $i && $i < len(hander.list)
+//@   loop 1 invariant hander.sharedMutex != nil && hander.sharedMutex.mutexes != nil && foralls(k, has(hander.sharedMutex.mutexes, k) ==> hander.sharedMutex.mutexes[k] != nil)
+//@   loop 1 step $i == prev($i) + 1 && row.Name == hander.list[$i].Name && row.Value == hander.list[$i].Value
+//@   trace get as GET bind got
+//@   at_call get requires $1 == row.Name
+//@   at_call (*RWMutex).RUnlock requires row.Value == commservices.LockR && $0 == got
+//@   at_call (*RWMutex).Unlock requires row.Value != commservices.LockR && $0 == got
